@@ -136,13 +136,22 @@ def transpose_struct_list_array(array: pa.StructArray, validate: bool = True) ->
     if validate:
         validate_struct_list_array_for_equal_lengths(array)
 
-    # Since we know that all lists have the same length, we can use the first list to get offsets
-    offsets = array.field(0).offsets
+    # Since we know that all lists have the same length, we can use the first list to get offsets.
+    # Fields may be slices of different buffers, so offsets are taken relative to their start
+    # and every field contributes the window of values its own offsets point to.
+    offsets = _rebased_offsets(array.field(0))
     struct_flat_array = pa.StructArray.from_arrays(
-        [field.values for field in array.flatten()],
+        [_windowed_values(field) for field in array.flatten()],
         names=array.type.names,
     )
     return pa.ListArray.from_arrays(offsets, struct_flat_array)
+
+
+def _windowed_values(list_array: pa.ListArray) -> pa.Array:
+    """Values of the list array its offsets point to, without the rest of a sliced buffer"""
+    offsets = list_array.offsets
+    start, stop = offsets[0].as_py(), offsets[-1].as_py()
+    return list_array.values.slice(start, stop - start)
 
 
 def transpose_list_struct_type(t: pa.ListType) -> pa.StructType:
